@@ -255,18 +255,26 @@ def mask_non_interference(case, ctx):
 CELLS = ['lstm', 'optlstm', 'gru', 'simple', 'mgu', 'convlstm']
 
 
-def make_cell(name, hid, dt):
+def make_cell(name, hid, dt, **opts):
   if name == 'lstm':
-    return nn.LSTMCell(hid, **dt)
+    return nn.LSTMCell(hid, **dt, **opts)
   if name == 'optlstm':
-    return nn.OptimizedLSTMCell(hid, **dt)
+    return nn.OptimizedLSTMCell(hid, **dt, **opts)
   if name == 'gru':
-    return nn.GRUCell(hid, **dt)
+    return nn.GRUCell(hid, **dt, **opts)
   if name == 'simple':
-    return nn.SimpleCell(hid, **dt)
+    return nn.SimpleCell(hid, **dt, **opts)
   if name == 'mgu':
-    return nn.MGUCell(hid, **dt)
-  return nn.ConvLSTMCell(hid, (2,), **dt)
+    return nn.MGUCell(hid, **dt, **opts)
+  return nn.ConvLSTMCell(hid, (2,), **dt, **opts)
+
+
+# non-default activation / gate functions with NumPy twins
+ACTS = {'tanh': (jnp.tanh, np.tanh),
+        'softsign': (jax.nn.soft_sign, lambda a: a / (1 + np.abs(a)))}
+GATES = {'sigmoid': (jax.nn.sigmoid, lambda a: 1 / (1 + np.exp(-a))),
+         'hard': (lambda a: jnp.clip(a * 0.2 + 0.5, 0.0, 1.0),
+                  lambda a: np.clip(a * 0.2 + 0.5, 0.0, 1.0))}
 
 
 def rnn_case():
@@ -411,12 +419,18 @@ def sig(z):
 
 @clause('cell_formulas',
         strategy=lambda: st.fixed_dictionaries({
-            'cell': st.sampled_from(['lstm', 'gru', 'simple', 'mgu']),
+            'cell': st.sampled_from(['lstm', 'optlstm', 'gru', 'simple',
+                                     'mgu']),
             'hid': st.integers(1, 4), 'feat': st.integers(1, 4),
-            'B': st.integers(1, 3), 'seed': st.integers(0, 2**16)}),
+            'B': st.integers(1, 3), 'seed': st.integers(0, 2**16),
+            # non-default configuration of the cell
+            'act': st.sampled_from(['tanh', 'tanh', 'softsign']),
+            'gate': st.sampled_from(['sigmoid', 'sigmoid', 'hard']),
+            'flag': st.booleans()}),
         quick=200, thorough=10000, quick_shards=4, x64=True, shrink=False,
-        rule='one step of LSTMCell / GRUCell / SimpleCell / MGUCell with '
-        'random parameters and carries vs a NumPy implementation of the '
+        rule='one step of LSTMCell / OptimizedLSTMCell / GRUCell / SimpleCell '
+        '(residual on/off) / MGUCell (reset_gate on/off), default or custom '
+        'activation and gate functions, with random parameters and carries vs a NumPy implementation of the '
         'documented recurrence; Linen LSTMCell vs nnx.LSTMCell on copied '
         'parameters; non-trivial = every case')
 def cell_formulas(case, ctx):
@@ -425,8 +439,21 @@ def cell_formulas(case, ctx):
   dt = dict(dtype=jnp.float64, param_dtype=jnp.float64)
   x = rnd(rng, (B, F))
   name = case['cell']
-  cell = make_cell(name, H, dt)
-  if name == 'lstm':
+  act_j, act = ACTS[case.get('act', 'tanh')]
+  gate_j, gate = GATES[case.get('gate', 'sigmoid')]
+  flag = case.get('flag', False)
+  opts = {}
+  if case.get('act', 'tanh') != 'tanh':
+    opts['activation_fn'] = act_j
+  if case.get('gate', 'sigmoid') != 'sigmoid' and name != 'simple':
+    opts['gate_fn'] = gate_j
+  if name == 'simple' and flag:
+    opts['residual'] = True          # pre-activation residual (documented)
+  if name == 'mgu' and flag:
+    opts['reset_gate'] = False
+  cell = make_cell(name, H, dt, **opts)
+  sig_ = gate if name != 'simple' else None
+  if name in ('lstm', 'optlstm'):
     carry = (jnp.asarray(rnd(rng, (B, H))), jnp.asarray(rnd(rng, (B, H))))
   else:
     carry = jnp.asarray(rnd(rng, (B, H)))
@@ -437,19 +464,22 @@ def cell_formulas(case, ctx):
   P = jax.tree_util.tree_map(np.asarray, p)
   lin = lambda n, inp: inp @ P[n]['kernel'] + (P[n]['bias'] if 'bias' in P[n]
                                                 else 0.0)
-  if name == 'lstm':
+  cfg = f'{type(cell).__name__}({opts})'
+  sig = sig_ if sig_ is not None else globals()['sig']
+  if name in ('lstm', 'optlstm'):
     c, h = np.asarray(carry[0]), np.asarray(carry[1])
     i = sig(lin('ii', x) + lin('hi', h))
     f = sig(lin('if', x) + lin('hf', h))
-    g = np.tanh(lin('ig', x) + lin('hg', h))
+    g = act(lin('ig', x) + lin('hg', h))
     o = sig(lin('io', x) + lin('ho', h))
     c2 = f * c + i * g
-    h2 = o * np.tanh(c2)
+    h2 = o * act(c2)
     require(close(new_carry, (c2, h2)) and close(y, h2),
-            'LSTMCell differs from the documented recurrence')
+            f'{cfg} differs from the documented recurrence')
+  if name == 'lstm':
     # Linen vs NNX
     with sut('nnx.LSTMCell'):
-      nc = nnx.LSTMCell(F, H, rngs=nnx.Rngs(0), **dt)
+      nc = nnx.LSTMCell(F, H, rngs=nnx.Rngs(0), **dt, **opts)
       for ln, nn_ in (('ii', 'ii'), ('if', 'if_'), ('ig', 'ig'), ('io', 'io'),
                       ('hi', 'hi'), ('hf', 'hf'), ('hg', 'hg'), ('ho', 'ho')):
         lay = getattr(nc, nn_)
@@ -463,23 +493,29 @@ def cell_formulas(case, ctx):
     h = np.asarray(carry)
     r = sig(lin('ir', x) + lin('hr', h))
     z = sig(lin('iz', x) + lin('hz', h))
-    n = np.tanh(lin('in', x) + r * lin('hn', h))
+    n = act(lin('in', x) + r * lin('hn', h))
     h2 = (1 - z) * n + z * h
     require(close(new_carry, h2) and close(y, h2),
-            'GRUCell differs from the documented recurrence')
+            f'{cfg} differs from the documented recurrence')
   elif name == 'simple':
     h = np.asarray(carry)
-    h2 = np.tanh(lin('i', x) + lin('h', h))
+    pre = lin('i', x) + lin('h', h)
+    if opts.get('residual'):
+      pre = pre + h
+    h2 = act(pre)
     require(close(new_carry, h2) and close(y, h2),
-            'SimpleCell differs from tanh(W_i x + b + W_h h)')
-  else:
+            f'{cfg} differs from act(W_i x + b + W_h h [+ h])')
+  elif name == 'mgu':
     h = np.asarray(carry)
     f = sig(lin('if', x) + lin('hf', h))
-    n = np.tanh(lin('in', x) + f * lin('hn', h))
+    if opts.get('reset_gate', True):
+      n = act(lin('in', x) + f * lin('hn', h))
+    else:
+      n = act(lin('in', x) + lin('hn', h))
     h2 = (1 - f) * n + f * h
     require(close(new_carry, h2) and close(y, h2),
-            'MGUCell differs from the documented recurrence')
-  ctx.note(labels=[name], nontrivial=True)
+            f'{cfg} differs from the documented recurrence')
+  ctx.note(labels=[name] + sorted(opts), nontrivial=True)
 
 
 # ----------------------------------------------------------------------------
